@@ -219,6 +219,26 @@ mod h {
     into_resp_ok!(into_resp_ok_1, 1, 3);
     into_resp_ok!(into_resp_ok_2, 2, 4);
 
+    /// Data that is present but EMPTY stays present (and stays empty).
+    #[kani::proof]
+    #[kani::unwind(4)]
+    #[kani::stub(std::backtrace::Backtrace::capture, bt_disabled)]
+    #[kani::stub(alloc::fmt::format, fmt_stub)]
+    fn into_resp_empty_data() {
+        let mut r = Response::<Empty>::new();
+        r.data = Some(Binary::default());
+        let out: StdResult<Response<MyMsg>> = r.into_response();
+        match &out {
+            Ok(o) => match &o.data {
+                Some(b) => assert!(b.as_slice().is_empty(), "empty data stays empty"),
+                None => assert!(false, "present (empty) data must stay present"),
+            },
+            Err(_) => assert!(false),
+        }
+        kani::cover!(true);
+        core::mem::forget(out);
+    }
+
     /// Order of several attributes and events is preserved (no sub-messages).
     #[kani::proof]
     #[kani::unwind(4)]
